@@ -314,6 +314,12 @@ impl<'a> Socket<'a> {
         // This is enforced in interface.rs.
         assert!(repr.src_port == self.server_port && repr.dst_port == self.client_port);
 
+        // The source is remembered as the address of the server, to which renewals are sent.
+        if !src_ip.x_is_unicast() {
+            net_debug!("DHCP ignoring packet from non-unicast source {}", src_ip);
+            return;
+        }
+
         let dhcp_packet = match DhcpPacket::new_checked(payload) {
             Ok(dhcp_packet) => dhcp_packet,
             Err(e) => {
